@@ -1283,7 +1283,11 @@ def run(ctx):
             if not ok:
                 continue
         try:
-            with built.ix.searcher() as s:
+            psz = model.partsize_for(idx)
+            if psz is not None:
+                ctx.count("c15.small_array_parts")
+                wb["array_partsize(default of ArrayUnionMatcher)"] = psz
+            with model.array_partsize(psz), built.ix.searcher() as s:
                 case = Case(ctx, built, s, wb)
                 parsers = None
                 for k in range(14):
